@@ -27,7 +27,7 @@ PROPERTY = "C12"
 LEVEL = "model_checking"
 
 ACTIONS = ["RecaseNs", "SwapNsName", "NsInnerBlank", "SpaceToUnderscore", "DoubleSpace", "PadEdges",
-           "EdgeMark", "LeadingColon", "SpaceAroundColon", "DropDefaultPrefix"]
+           "EdgeMark", "InnerMark", "LeadingColon", "SpaceAroundColon", "DropDefaultPrefix"]
 ALL_SHAPES = ["one", "low", "up", "other", "words", "colon", "nslike"]
 DEFAULT_NS = [0, 6, 10, 14]
 
@@ -240,13 +240,25 @@ def _cls(c):
 
 
 def mark_context(codes):
-    """Where a bidi mark sits relative to what the code strips first (whitespace at the edges)."""
+    """Where a bidi mark sits relative to what the code strips first (whitespace).  Marks at the
+    remainder's leading edge (after a colon) are listed first, then marks at the title's edges."""
     s = list(codes)
     while s and _cls(s[0]) == "whitespace":
         s.pop(0)
     while s and _cls(s[-1]) == "whitespace":
         s.pop()
     out = []
+    for i, c in enumerate(s):
+        if c != "COLON":
+            continue
+        j = i + 1
+        while j < len(s) and _cls(s[j]) == "whitespace":
+            j += 1
+        if j < len(s) and _cls(s[j]) == "mark":
+            while j < len(s) and _cls(s[j]) == "mark":
+                j += 1
+            if j < len(s) and _cls(s[j]) in ("whitespace", "namespace prefix") and "inner mark before " + _cls(s[j]) not in out:
+                out.append("inner mark before " + _cls(s[j]))
     if s and _cls(s[0]) == "mark":
         i = 0
         while i < len(s) and _cls(s[i]) == "mark":
@@ -268,8 +280,8 @@ def action_label(a):
         return name + ":" + a[1]
     if name == "PadEdges":
         return "PadEdges:%s-%s" % (a[1], a[2])
-    if name == "EdgeMark":
-        return "EdgeMark:" + a[1]
+    if name in ("EdgeMark", "InnerMark"):
+        return name + ":" + a[1]
     if name == "SpaceAroundColon":
         return "SpaceAroundColon:" + a[1]
     return name
